@@ -1,4 +1,5 @@
 import Dbus.Proofs.Bus.Limits
+import Dbus.Proofs.Bus.Timed
 /-
   C09 — only the addressee of a pending call can answer it, once.
 -/
@@ -126,6 +127,7 @@ theorem pend_leaves : Leaves (keeps PendInv) where
   gate := fun b s a p m h => checkPolicy_nodup b s a p m h
   forget := fun _ _ h => h.sublist List.filter_sublist
   expire := fun _ _ => List.nodup_nil
+  expireSome := fun _ _ h => h.sublist List.filter_sublist
   acquire := by
     intro t c n f _ h
     unfold acquire
@@ -260,5 +262,100 @@ theorem full_queue_opens_no_slot (b : Bus) (s a : ConnId) (m : Msg) (hfull : que
     cases hp : policyVerdict b (some s) (some a) (some a) m false with
     | none => exact absurd hp hv
     | some e => exact ⟨rfl, by simp⟩
+
+/-! ### deadlines: the reply timeout is per call, fixed when the call is delivered -/
+
+/-- **Entries that are due go, the others stay.** `do_expiration_with_monotonic_time` in the model:
+    whatever set of pending replies is due, exactly those are removed, each caller gets at most one
+    NoReply per removed slot (exactly one unless its own receive policy refuses it), in list order,
+    and nothing else is sent. -/
+theorem expire_due_one_noreply_each (b : Bus) (due : Pending → Bool) :
+    (expireWhere b due).bus.pending = b.pending.filter (fun p => !due p) ∧
+    ∃ l, (expireWhere b due).out = l ∧
+      l.Sublist ((b.pending.filter due).map (noReplyFor { b with pending := b.pending.filter fun p => !due p })) := by
+  unfold expireWhere
+  have key := fold_noReply { b with pending := b.pending.filter fun p => !due p } (fun _ => true) (b.pending.filter due)
+    ({ bus := { b with pending := b.pending.filter fun p => !due p } } : Tx) rfl
+  have hft : (b.pending.filter due).filter (fun _ => true) = b.pending.filter due := List.filter_eq_self.mpr (fun _ _ => rfl)
+  simp only [if_true, hft] at key
+  refine ⟨by rw [key.1], ?_⟩
+  obtain ⟨l, hl, hs⟩ := key.2
+  exact ⟨l, by rw [hl]; rfl, hs⟩
+
+/-- has the deadline of the pending reply `p` passed at time `now`? -/
+def slotDue (t : TBus) (T now : Nat) (p : Pending) : Bool := t.slotBorn.any fun e => e.1 == p && decide (e.2 + T ≤ now)
+
+theorem slotDue_iff (t : TBus) (T now : Nat) (p : Pending) : slotDue t T now p = true ↔ ∃ b, (p, b) ∈ t.slotBorn ∧ b + T ≤ now := by
+  unfold slotDue
+  simp only [List.any_eq_true, Bool.and_eq_true, beq_iff_eq, decide_eq_true_eq]
+  constructor
+  · rintro ⟨e, he, rfl, hd⟩; exact ⟨e.2, he, hd⟩
+  · rintro ⟨b, hb, hd⟩; exact ⟨(p, b), hb, rfl, hd⟩
+
+/-- **The reply timeout runs from the moment the call was delivered.** When `dt` milliseconds pass,
+    the first thing the bus does is expire exactly the pending replies whose stamp lies `T` or more
+    behind the new time — each of their callers gets its NoReply — and no other pending reply is
+    touched; later calls, replies or disconnects of other connections have not moved any deadline
+    (`stampSlots_keeps`). -/
+theorem reply_deadline_is_fixed (tbl : List IfaceRow) (t : TBus) (T dt : Nat) (hT : t.replyTimeout = some T) :
+    ∃ x : ATx, (stepT tbl t (.advance dt)).2.head? = some x ∧
+      x.t.bus.pending = t.a.core.pending.filter (fun p => !slotDue t T (t.now + dt) p) ∧
+      ∃ l, x.t.out = l ∧ l.Sublist ((t.a.core.pending.filter (slotDue t T (t.now + dt))).map
+        (noReplyFor { t.a.core with pending := x.t.bus.pending })) := by
+  refine ⟨_, advance_first_tx tbl t dt, ?_⟩
+  have hdue : ∀ p, (dueSlots { t with now := t.now + dt } (t.now + dt)).contains p = slotDue t T (t.now + dt) p := by
+    intro p
+    have h1 := mem_dueSlots { t with now := t.now + dt } T (t.now + dt) hT p
+    have h2 := slotDue_iff t T (t.now + dt) p
+    cases hs : slotDue t T (t.now + dt) p with
+    | true => simpa using h1.mpr (h2.mp hs)
+    | false =>
+      have hn : p ∉ dueSlots { t with now := t.now + dt } (t.now + dt) := fun hm => by
+        have := h2.mpr (h1.mp hm); rw [hs] at this; cases this
+      simpa using hn
+  have hfun : (fun p => (dueSlots { t with now := t.now + dt } (t.now + dt)).contains p) = slotDue t T (t.now + dt) := funext hdue
+  have key := expire_due_one_noreply_each t.a.core (slotDue t T (t.now + dt))
+  have hx : (stepA tbl t.a (.core (.expire (dueSlots { t with now := t.now + dt } (t.now + dt))))).t =
+      expireWhere t.a.core (slotDue t T (t.now + dt)) := by
+    rw [← hfun]; rfl
+  rw [hx]
+  refine ⟨key.1, ?_⟩
+  obtain ⟨l, hl, hs⟩ := key.2
+  exact ⟨l, hl, by rw [key.1]; exact hs⟩
+
+/-- a call younger than the timeout is not touched when time passes (its stamp is the only one recorded
+    for its slot: slots are never duplicated, `pending_never_duplicated`) -/
+theorem young_call_survives (tbl : List IfaceRow) (t : TBus) (T dt : Nat) (hT : t.replyTimeout = some T) (p : Pending) (b : Nat)
+    (hp : p ∈ t.a.core.pending) (hb : ∀ b', (p, b') ∈ t.slotBorn → b' = b) (hyoung : t.now + dt < b + T) :
+    ∃ x : ATx, (stepT tbl t (.advance dt)).2.head? = some x ∧ p ∈ x.t.bus.pending := by
+  obtain ⟨x, hx, hmem, _⟩ := reply_deadline_is_fixed tbl t T dt hT
+  refine ⟨x, hx, ?_⟩
+  rw [hmem, List.mem_filter]
+  refine ⟨hp, ?_⟩
+  cases hs : slotDue t T (t.now + dt) p with
+  | false => rfl
+  | true =>
+    obtain ⟨b', hb', hle⟩ := (slotDue_iff t T (t.now + dt) p).mp hs
+    rw [hb b' hb'] at hle
+    omega
+
+/-- without a reply timeout (the session bus default) time passing expires nothing -/
+theorem no_reply_timeout_nothing_expires (tbl : List IfaceRow) (t : TBus) (dt : Nat) (hT : t.replyTimeout = none) :
+    ∃ x : ATx, (stepT tbl t (.advance dt)).2.head? = some x ∧ x.t.bus.pending = t.a.core.pending ∧ x.t.out = [] := by
+  refine ⟨_, advance_first_tx tbl t dt, ?_⟩
+  rw [dueSlots_never { t with now := t.now + dt } (t.now + dt) hT]
+  show (expireWhere t.a.core (fun p => ([] : List Pending).contains p)).bus.pending = _ ∧ (expireWhere t.a.core (fun p => ([] : List Pending).contains p)).out = []
+  unfold expireWhere
+  have h1 : t.a.core.pending.filter (fun p => ([] : List Pending).contains p) = [] := by
+    apply List.filter_eq_nil_iff.mpr; intro p _; simp
+  have h2 : t.a.core.pending.filter (fun p => !([] : List Pending).contains p) = t.a.core.pending := by
+    apply List.filter_eq_self.mpr; intro p _; simp
+  rw [h1, h2]
+  exact ⟨rfl, rfl⟩
+
+/-- the hypotheses are met: a call recorded at time 0 under an 800 s timeout survives 700 s and is gone after 900 s -/
+example : let t : TBus := { a := { core := { pending := [slot 1 2 7] } }, replyTimeout := some 800000, slotBorn := [(slot 1 2 7, 0)] }
+    ((stepT [] t (.advance 700000)).1.a.core.pending = [slot 1 2 7]) ∧ ((stepT [] t (.advance 900000)).1.a.core.pending = []) := by
+  decide
 
 end Dbus.Props.C09
